@@ -23,12 +23,15 @@ package sbom
 //@   assigns \nothing
 //@   owns
 //@   ensures result != nil
+//@   ensures-each Person[string,enum,int,bool]: [C12:copy:$f] result.$f == p.$f
 
 //@ func ExternalReference.Copy
 //@   props C11, C12
 //@   assigns \nothing
 //@   owns
 //@   ensures result != nil
+//@   ensures-each ExternalReference[string,enum,int,bool]: [C12:copy:$f] result.$f == e.$f
+//@   ensures-each ExternalReference[map]: [C12:copy:$f] sameMap(result.$f, e.$f)
 
 //@ func Edge.Copy
 //@   props C11, C12, C08, C09, C10
@@ -37,7 +40,7 @@ package sbom
 //@   ensures result != nil
 //@   ensures [fresh] fresh(result)
 //@   ensures [freshTo] arr(result.To) == nil || fresh(arr(result.To))
-//@   ensures [C09:copy:edge] result.From == e.From && result.Type == e.Type && len(result.To) == len(e.To) && (forall j int :: 0 <= j && j < len(e.To) ==> result.To[j] == e.To[j])
+//@   ensures [C12:copy:edge] result.From == e.From && result.Type == e.Type && len(result.To) == len(e.To) && (forall j int :: 0 <= j && j < len(e.To) ==> result.To[j] == e.To[j])
 
 //@ func Node.Copy
 //@   props C11, C12, C08, C09, C10
@@ -45,7 +48,14 @@ package sbom
 //@   owns
 //@   ensures result != nil
 //@   ensures [fresh] fresh(result)
-//@   ensures-each Node[string,enum,int,bool]: [C09:copy:$f] result.$f == n.$f
+//@   ensures-each Node[string,enum,int,bool]: [C12:copy:$f] result.$f == n.$f
+//@   ensures-each Node[slice]: [C12:copy:$f] len(result.$f) == len(n.$f) && (forall j int :: 0 <= j && j < len(n.$f) ==> result.$f[j] == n.$f[j])
+//@   ensures-each Node[map]: [C12:copy:$f] sameMap(result.$f, n.$f)
+//@   ensures-each Node[ptr]: [C12:copy:$f] (result.$f == nil) <==> (n.$f == nil)
+//@   ensures-each Node[ptrslice]: [C12:copy:$f] len(result.$f) == len(n.$f)
+//@   invariant L0: [C12:inv] len(no.Suppliers) == _i
+//@   invariant L1: [C12:inv] len(no.Suppliers) == len(n.Suppliers) && len(no.Originators) == _i
+//@   invariant L2: [C12:inv] len(no.Suppliers) == len(n.Suppliers) && len(no.Originators) == len(n.Originators) && len(no.ExternalReferences) == _i
 
 //@ func NodeList.Copy
 //@   props C11, C12
